@@ -1,0 +1,52 @@
+//! Observation points for external runtime monitors. Only compiled with the
+//! `verif_hooks` cargo feature (off by default); without an installed hook
+//! every point costs one relaxed atomic load.
+use std::{
+  rc::Rc,
+  sync::{
+    atomic::{AtomicBool, Ordering},
+    Arc, RwLock,
+  },
+};
+
+use futures::future::{BoxFuture, LocalBoxFuture};
+
+/// `(site, address of the shared cell, probe: would the lock be free now?)`
+pub type Hook =
+  Arc<dyn Fn(&'static str, usize, &mut dyn FnMut() -> bool) + Send + Sync>;
+
+static ENABLED: AtomicBool = AtomicBool::new(false);
+static HOOK: RwLock<Option<Hook>> = RwLock::new(None);
+
+/// Install (or remove) the process wide hook.
+pub fn set_hook(h: Option<Hook>) {
+  let mut slot = HOOK.write().unwrap_or_else(|e| e.into_inner());
+  ENABLED.store(h.is_some(), Ordering::SeqCst);
+  *slot = h;
+}
+
+#[inline]
+pub(crate) fn point(
+  site: &'static str,
+  addr: usize,
+  avail: &mut dyn FnMut() -> bool,
+) {
+  if ENABLED.load(Ordering::Relaxed) {
+    let hook = HOOK.read().unwrap_or_else(|e| e.into_inner()).clone();
+    if let Some(hook) = hook {
+      hook(site, addr, avail)
+    }
+  }
+}
+
+/// A scheduler that hands every (already wrapped, cancellable) task future
+/// to a closure instead of an executor, so a monitor can choose the order in
+/// which ready tasks run.
+#[derive(Clone)]
+pub struct VerifScheduler(pub Rc<dyn Fn(LocalBoxFuture<'static, ()>)>);
+
+/// Thread safe form of [`VerifScheduler`].
+#[derive(Clone)]
+pub struct VerifSchedulerThreads(
+  pub Arc<dyn Fn(BoxFuture<'static, ()>) + Send + Sync>,
+);
